@@ -725,14 +725,20 @@ func writeTypeConversion(w *formatting.IndentedWriter, typeChange dsl.TypeChange
 			return
 		}
 
+		// Vectors can be nested, so the loop variable and the temporary are named after the nesting depth
+		indexName := "i"
+		tmpItemName := "item"
+		if depth := strings.Count(sourceName, "["); depth > 0 {
+			indexName = fmt.Sprintf("i%d", depth)
+			tmpItemName = fmt.Sprintf("item%d", depth)
+		}
 		fmt.Fprintf(w, "%s.resize(%s.size());\n", targetName, sourceName)
-		fmt.Fprintf(w, "for (size_t i = 0; i < %s.size(); i++) {\n", sourceName)
+		fmt.Fprintf(w, "for (size_t %s = 0; %s < %s.size(); %s++) {\n", indexName, indexName, sourceName, indexName)
 		w.Indented(func() {
-			tmpItemName := "item"
 			tmpItemType := common.TypeSyntax(tc.InnerChange.NewType())
 			fmt.Fprintf(w, "%s %s = {};\n", tmpItemType, tmpItemName)
-			writeTypeConversion(w, tc.InnerChange, fmt.Sprintf("%s[i]", sourceName), tmpItemName, write)
-			fmt.Fprintf(w, "%s[i] = %s;\n", targetName, tmpItemName)
+			writeTypeConversion(w, tc.InnerChange, fmt.Sprintf("%s[%s]", sourceName, indexName), tmpItemName, write)
+			fmt.Fprintf(w, "%s[%s] = %s;\n", targetName, indexName, tmpItemName)
 		})
 		fmt.Fprintf(w, "}\n")
 
